@@ -13,8 +13,9 @@ from .state import State, alloc_list, alloc_dict, alloc_set, alloc_obj, new_fid
 class Env:
     """What a spec expression can see."""
 
-    def __init__(self, a, s0, s1=None, res=None, exc=None, eng=None):
+    def __init__(self, a, s0, s1=None, res=None, exc=None, eng=None, role="assume"):
         self.a, self.s0, self.s1, self.res, self.exc, self.eng = a, s0, s1, res, exc, eng
+        self.role = role   # 'goal': the expression is being proved on the function body; 'assume': used at a call site
 
     def __getitem__(self, k):
         return self.a[k]
